@@ -19,7 +19,7 @@ var c06Truthy = []string{"yes", "true", "1"}
 // 4 rest required:"1-2"; 5 rest required:"0-1"; 6 two scalars optional (no marks)
 func c06Pos(layout int) ([]*decl.PosArg, string) {
 	pa := func(n, req string, t *decl.Type) *decl.PosArg {
-		return &decl.PosArg{Field: n, Name: "ARG" + n, Type: t, Required: req}
+		return &decl.PosArg{Field: n, Name: "ARG%" + n, Type: t, Required: req}
 	}
 	switch layout {
 	case 1:
@@ -50,7 +50,7 @@ func c06Decl(mask int, layout int, onB bool, cmdRequired bool) *decl.Decl {
 	}
 	top := &decl.Cmd{Name: "app", SubOptional: true, Opts: []*decl.Opt{
 		{Field: "P1", Short: "p", Long: "pone", Type: decl.TBool, Required: req(0)},
-		{Field: "P2", Short: "P", Long: "ptwo", Type: decl.TString, Required: req(1)},
+		{Field: "P2", Short: "P", Long: "p%two", Type: decl.TString, Required: req(1)},
 	}}
 	b := &decl.Cmd{Field: "B", Name: "b", Opts: []*decl.Opt{{Field: "B1", Short: "r", Long: "bone", Type: decl.TBool, Required: req(4)}}}
 	a := &decl.Cmd{Field: "A", Name: "a", SubOptional: true, Cmds: []*decl.Cmd{b}, Opts: []*decl.Opt{
@@ -72,7 +72,7 @@ func c06Decl(mask int, layout int, onB bool, cmdRequired bool) *decl.Decl {
 	return (&decl.Decl{Top: top, Options: flags.PassDoubleDash}).Finish()
 }
 
-var c06Units = [][]string{{"-p"}, {"--ptwo=v"}, {"-P", "v"}, {"a"}, {"-q"}, {"--atwo", "v"}, {"b"}, {"-r"}, {"c"}, {"-t"}, {"-pq"}, {"w"}, {"x"}, {"--"}}
+var c06Units = [][]string{{"-p"}, {"--p%two=v"}, {"-P", "v"}, {"a"}, {"-q"}, {"--atwo", "v"}, {"b"}, {"-r"}, {"c"}, {"-t"}, {"-pq"}, {"w"}, {"x"}, {"--"}}
 
 func init() {
 	cache := map[string]*decl.Decl{}
